@@ -338,7 +338,7 @@ var sampleTexts = []string{
 	"x",
 	"Zwölf Boxkämpfer jagen Viktor",
 	"abc שלום עולם def 123", // bidi: a right-to-left run inside left-to-right text
-	"שלום עולם", // right-to-left only
+	"שלום עולם",             // right-to-left only
 }
 
 var vocabulary = []string{"a", "in", "of", "the", "and", "to", "it", "was", "fountain", "golden", "forest", "favorite", "princess", "extraordinarily", "that", "when", "high", "day", "took", "close",
